@@ -170,9 +170,37 @@ static void scn_ddict(void) {
     ZSTD_freeDDict(dd); ZSTD_freeDCtx(d);
 }
 
+static void scn_ddict_set_grows(void) {
+    /* 40 dictionaries with distinct IDs referenced under ZSTD_d_refMultipleDDicts: the set's table grows at the 17th and 33rd; then the context is reused */
+    enum { ND = 40 }; static ZSTD_DDict* dds[ND]; static unsigned char dcopy[1 << 17]; static unsigned char f[200000]; size_t nf, r = 0; int i, refs = 0; ZSTD_DCtx* d; ZSTD_CCtx* c = ZSTD_createCCtx();
+    size_t ds = dictSize < sizeof(dcopy) ? dictSize : sizeof(dcopy); memcpy(dcopy, dict, ds);
+    for (i = 0; i < ND; i++) { unsigned id = 70000u + (unsigned)i * 977u; dcopy[4] = id & 255; dcopy[5] = (id >> 8) & 255; dcopy[6] = (id >> 16) & 255; dcopy[7] = (id >> 24) & 255; dds[i] = ZSTD_createDDict(dcopy, ds); }
+    nf = ZSTD_compress_usingDict(c, f, sizeof(f), src, 100000, dcopy, ds, 3); ZSTD_freeCCtx(c);      /* names the last ID */
+    d = ZSTD_createDCtx_advanced(CM); if (!d) return;
+    ZSTD_DCtx_setParameter(d, ZSTD_d_refMultipleDDicts, 1);
+    ARM(); for (i = 0; i < ND; i++) { r = ZSTD_DCtx_refDDict(d, dds[i]); if (ZSTD_isError(r)) break; refs++; } opev("refDDict-x40", !ZSTD_isError(r)); DISARM();
+    ZSTD_DCtx_reset(d, ZSTD_reset_session_only);
+    for (i = 0; i < ND; i++) { r = ZSTD_DCtx_refDDict(d, dds[i]); if (ZSTD_isError(r)) break; }
+    if (!ZSTD_isError(r)) r = ZSTD_decompressDCtx(d, out, SRCN, f, nf);
+    opev("retry", !ZSTD_isError(r) && r == 100000 && !memcmp(out, src, 100000));
+    ZSTD_freeDCtx(d); for (i = 0; i < ND; i++) ZSTD_freeDDict(dds[i]);
+}
+static void scn_mt_more_workers(void) {
+    /* a multi-threaded context that has worked with 1 worker is asked for 3: pools are re-created */
+    ZSTD_CCtx* c = ZSTD_createCCtx_advanced(CM); size_t r; if (!c) return;
+    ZSTD_CCtx_setParameter(c, ZSTD_c_nbWorkers, 1); ZSTD_CCtx_setParameter(c, ZSTD_c_compressionLevel, 1); ZSTD_CCtx_setParameter(c, ZSTD_c_jobSize, 1);
+    r = cstream(c, 1300000, 300000); opev("history-1-worker", !ZSTD_isError(r));
+    ARM(); ZSTD_CCtx_setParameter(c, ZSTD_c_nbWorkers, 3);
+    r = cstream(c, 1700000, 300000); opev("mt-3-workers", !ZSTD_isError(r)); DISARM();
+    ZSTD_CCtx_reset(c, ZSTD_reset_session_only);
+    r = cstream(c, 1700000, 300000); if (ZSTD_isError(r)) fprintf(T, "{\"e\":\"note\",\"retryError\":\"%s\"}\n", ZSTD_getErrorName(r));
+    opev("retry", !ZSTD_isError(r) && roundtrip(comp, r, src, 1700000, NULL, 0));
+    ZSTD_freeCCtx(c);
+}
+
 typedef struct { const char* name; int a, b; } scn_t;
 static const scn_t SCN[] = { {"cctx-l3", 0, 0}, {"cctx-l1-then-l7", 1, 0}, {"cctx-l19", 2, 0}, {"history-then-resize", 3, 0}, {"dict-copy", 4, 0}, {"dict-ref", 5, 0},
-    {"cstream-l3", 6, 0}, {"cstream-l13", 7, 0}, {"mt-1", 8, 0}, {"mt-2", 9, 0}, {"mt-2-ldm", 10, 0}, {"dstream-fresh", 11, 0}, {"dstream-after-small", 12, 0}, {"dstream-retry-small-first", 13, 0}, {"ddict", 14, 0} };
+    {"cstream-l3", 6, 0}, {"cstream-l13", 7, 0}, {"mt-1", 8, 0}, {"mt-2", 9, 0}, {"mt-2-ldm", 10, 0}, {"dstream-fresh", 11, 0}, {"dstream-after-small", 12, 0}, {"dstream-retry-small-first", 13, 0}, {"ddict", 14, 0}, {"ddict-set-grows", 15, 0}, {"mt-more-workers", 16, 0} };
 #define NSCN (int)(sizeof(SCN)/sizeof(SCN[0]))
 static void run_scn(int i) {
     switch (i) {
@@ -191,6 +219,8 @@ static void run_scn(int i) {
     case 12: scn_dstream(1); break;
     case 13: scn_dstream(2); break;
     case 14: scn_ddict(); break;
+    case 15: scn_ddict_set_grows(); break;
+    case 16: scn_mt_more_workers(); break;
     }
 }
 
